@@ -49,6 +49,10 @@ func (h *RolloutCreateUpdateHandler) validateV1alpha1RolloutUpdate(oldObj, newOb
 			return field.ErrorList{field.Forbidden(field.NewPath("Spec.ObjectRef"), "Rollout 'ObjectRef' field is immutable")}
 		}
 		// canary strategy
+		// newObj.Spec.Strategy.Canary is not nil here (validateV1alpha1Rollout passed), oldObj was not validated
+		if oldObj.Spec.Strategy.Canary == nil {
+			return field.ErrorList{field.Forbidden(field.NewPath("Spec.Strategy.Canary"), "Rollout strategy type (Canary|BlueGreen) is immutable")}
+		}
 		if !reflect.DeepEqual(oldObj.Spec.Strategy.Canary.TrafficRoutings, newObj.Spec.Strategy.Canary.TrafficRoutings) {
 			return field.ErrorList{field.Forbidden(field.NewPath("Spec.Strategy.Canary.TrafficRoutings"), "Rollout 'Strategy.Canary.TrafficRoutings' field is immutable")}
 		}
